@@ -804,15 +804,23 @@ pub fn c13_check(run: &W3Run, sc: &Scenario) -> Result<(), (String, String)> {
         // token receipts of station a: end of a token telegram X -> a (X != a), scaled time
         let mut receipts: Vec<i64> = vec![];
         let mut visits: Vec<(i64, Vec<(i64, bool)>)> = vec![]; // (receipt, requests (start, is_gap_poll))
+        // a repeated pass (the passer saw no reaction and sends the token again) is not a new receipt: it is
+        // recognised by the addressee not having transmitted anything since the previous pass to it — not by
+        // a time threshold (at 12 Mbit/s a whole rotation is shorter than half a slot time)
+        let mut spoke_since_receipt = true;
         for (sa, f, s, e) in &run.log {
+            if *sa == a && !matches!(f, Some(crate::refcodec::RFrame::Token { da, sa: tsa }) if *da == a && *tsa == a && n == 1) {
+                spoke_since_receipt = true;
+            }
             match f {
                 // (a station that is alone in the ring passes the token to itself: that is its receipt)
                 Some(crate::refcodec::RFrame::Token { da, sa: tsa }) if *da == a && (*tsa != a || n == 1) => {
-                    // a repeated pass is not a new receipt (a lone station's passes to itself are never repeats)
-                    if n == 1 || receipts.last().map(|r| e - r > slot / 2).unwrap_or(true) {
+                    // (a lone station's passes to itself are never repeats)
+                    if n == 1 || spoke_since_receipt {
                         receipts.push(*e);
                         visits.push((*e, vec![]));
                     }
+                    spoke_since_receipt = false;
                 }
                 Some(fr) if *sa == a && fr.is_request() => {
                     if let Some(v) = visits.last_mut() {
@@ -962,6 +970,16 @@ pub fn run_c13(tier: Tier) -> ! {
             let mut r = sc.clone();
             r.repoll = 2;
             scenarios.push(r);
+            // other baud rates (9600 baud, 1.5 and 12 Mbit/s) at the minimum slot time of the rate
+            for baud in [0usize, 3, 4] {
+                let mut b = sc.clone();
+                b.baud = baud;
+                b.slot_bits = b.slot_bits.max(crate::w2::MIN_SLOT[baud]);
+                b.responders = vec![(40, 11), (41, b.slot_bits as u32 - 33), (42, 0)];
+                if b.inside_envelope() {
+                    scenarios.push(b);
+                }
+            }
         }
     }
     // endurance (some 10^5 token visits with busy applications)
@@ -980,7 +998,7 @@ pub fn run_c13(tier: Tier) -> ! {
         let cfg = Arc::new(cfg);
         // quick: one poll stall at every effective poll on the explicit-TTR configurations of up to three stations
         // configurations with the fine poll grid; thorough: on every configuration
-        let quick_k1 = sc.addrs.len() <= 3 && sc.ttr != None && sc.divs == vec![16] && sc.origin == 0 && sc.repoll == 0 && sc.endurance <= 1;
+        let quick_k1 = sc.addrs.len() <= 3 && sc.ttr != None && sc.divs == vec![16] && sc.origin == 0 && sc.repoll == 0 && sc.endurance <= 1 && sc.baud == 1;
         // (thorough: every explicit-TTR configuration except the Tslot/8-only grid)
         let thorough_k1 = tier == Tier::Thorough && sc.divs != vec![8] && sc.ttr.is_some() && sc.endurance <= 1;
         // thorough: every placement of TWO poll stalls on the lone stations and the two-station rings with the
